@@ -83,6 +83,8 @@ def execute(mod, spec, ws):
                 w.stop()
         else:
             results[tag] = ws.run(variant, plan, timeout=wall + 30)
+        if results[tag].crash_class() == 'TIMEOUT' and getattr(mod, 'STOP_JOB_AFTER_TIMEOUT', False):
+            break      # one watchdog expiry per job is enough evidence; the rest of its placements would cost 20 s each
     s2 = dict(spec); s2['_ix'] = ix0; s2['_plans'] = pl
     V = mod.judge(s2, results)
     return results, V
@@ -327,7 +329,7 @@ def cmd_check(prop, tier):
     budget_s, max_jobs = BUDGET[tier][prop]
     if os.environ.get('VERIF_BUDGET_S'):
         budget_s = float(os.environ['VERIF_BUDGET_S'])
-    deadline = time.time() + budget_s
+    deadline = [time.time() + budget_s]
 
     import threading
     inflight = threading.Semaphore(NPROC * 3)     # back-pressure: the pool's feeder thread would otherwise drain the generator at once
@@ -336,7 +338,7 @@ def cmd_check(prop, tier):
         i = 0
         while i < max_jobs:
             inflight.acquire()
-            if time.time() >= deadline:
+            if time.time() >= deadline[0]:
                 return
             yield (prop, tier, seed, i)
             i += 1
@@ -379,6 +381,12 @@ def cmd_check(prop, tier):
             for v in rep['viol']:
                 v = dict(v); v['job'] = rep['i']; v['spec'] = rep.get('spec')
                 violations.append(v)
+            if rep['viol']:
+                nmine = sum(1 for v in violations if v['prop'] == prop)
+                nhang = sum(1 for v in violations if v['prop'] == prop and ('HANG' in v['sig'] or 'TIMEOUT' in v['sig']))
+                if (nmine >= 60 or nhang >= 3) and time.time() < deadline[0]:
+                    # plenty of candidates (or runs that eat the watchdog): stop generating, go and confirm them
+                    deadline[0] = time.time()
     finally:
         pool.terminate(); pool.join()
     t_jobs = time.time()
